@@ -18,14 +18,40 @@ package server
 //@   nopanic
 //@   ensures [def] pass <==> isPassMethod(req.Method)
 
+// the part of a server's state that a configuration update can change, as a fresh start sets it
+//@ spec func effMinLength(n int) int := (n == 0) ? 1024 : n
+//@ pred configured(s *server, opt ServerOption) := s.locations == opt.Locations && s.cache == opt.Cache && s.compress == opt.Compress
+//@      && s.compressMinLength == effMinLength(opt.CompressMinLength) && s.compressContentTypeFilter == opt.CompressContentTypeFilter
+
 //@ func NewServer(opt ServerOption) (s *server)
 //@   nopanic
-//@   ensures [fresh] fresh(s)
+//@   ensures [fresh] fresh(s) && s.mutex != nil && fresh(s.mutex)
+//@   ensures [state] configured(s, opt)
+//@   ensures [restart-only] s.addr == opt.Addr && s.logFormat == opt.LogFormat && !s.listening
+
+//@ func (s *server) Update(opt ServerOption)
+//@   requires [recv] s != nil
+//@   requires [unlocked] !anyheld(s.mutex)
+//@   modifies s.locations, s.cache, s.compress, s.compressMinLength, s.compressContentTypeFilter, cells(string)
+//@   nopanic
+//@   atunlock [fresh-equiv] configured(s, opt)
+
+//@ func (s *server) GetLocations() (names []string)
+//@   requires [recv] s != nil
+//@   requires [unlocked] !anyheld(s.mutex)
+//@   modifies s.locations, s.cache, s.compress, s.compressMinLength, s.compressContentTypeFilter, cells(string)
+//@   nopanic
+
+//@ func (s *server) GetCompress() (name string, minLength int, filter *regexp.Regexp)
+//@   requires [recv] s != nil
+//@   requires [unlocked] !anyheld(s.mutex)
+//@   modifies s.locations, s.cache, s.compress, s.compressMinLength, s.compressContentTypeFilter, cells(string)
+//@   nopanic
 
 //@ func (s *server) GetCache() (name string)
 //@   requires [recv] s != nil
 //@   requires [unlocked] !anyheld(s.mutex)
-//@   modifies s.locations, s.cache, s.compress, s.compressMinLength, s.compressContentTypeFilter
+//@   modifies s.locations, s.cache, s.compress, s.compressMinLength, s.compressContentTypeFilter, cells(string)
 //@   nopanic
 
 //@ func getKey(req *http.Request) (key []byte)
